@@ -120,6 +120,7 @@ def check_invariants(I, inst, R, frame, args, invariants, tmap):
     out = []
     if R is None:
         return out
+    invariants = I.inv  # the table bound to this fact file (moved private types keep their invariant)
     seen = set()
     counted = [0]
     by_type = {}
